@@ -14,10 +14,15 @@ def closure_body(p, e):
     return None
 
 
-def floor_form(ctx, p, rule, cb, want_rho=True):
-    """closure of estimate_duration: returns cast(max(round(mean + rho*vari), c>=1)) -> bool"""
-    eb = ExprBuilder(cb)
-    ret = eb.local(0)
+def floor_form(ctx, p, rule, cb, want_rho=True, value=None, rho_is=None):
+    """closure of estimate_duration: returns cast(max(round(mean + rho*vari), c>=1)) -> bool.
+    With `value` given, judges that expression instead of the closure's return value (loop form:
+    the pushed element), `rho_is(atom)` saying which atom is rho there."""
+    if value is None:
+        eb = ExprBuilder(cb)
+        ret = eb.local(0)
+    else:
+        ret = value
     if not (ret[0] == "cast" and ret[1] == "usize"):
         ctx.fail(rule, cb.path, "return value", "per-state duration is %s, expected a float->usize cast of a floored, rounded value" % show(ret), cb.loc())
         return False
@@ -47,8 +52,9 @@ def floor_form(ctx, p, rule, cb, want_rho=True):
         if c1 == 1 and c2 == 1 and len(m1) == 1 and len(m2) == 2:
             a_mean = m1[0][0]
             names = [a for a, e in m2]
-            has_rho = any(isinstance(a, tuple) and a[0] == "upvar" and a[1].lstrip("*") == "rho" for a in names)
-            others = [a for a in names if not (isinstance(a, tuple) and a[0] == "upvar")]
+            is_rho = rho_is or (lambda a: isinstance(a, tuple) and a[0] == "upvar" and a[1].lstrip("*") == "rho")
+            has_rho = any(is_rho(a) for a in names)
+            others = [a for a in names if not is_rho(a)]
             if has_rho and others and a_mean[0] == "field" and others[0][0] == "field" and a_mean[2] == "0" and others[0][2] == "1" and a_mean[1] == others[0][1]:
                 okp = True
     if not okp:
@@ -74,12 +80,32 @@ def run(ctx):
         # collect(map(iter(params), closure)) without skip/take/filter/step_by/rev
         chain = [x[1].rsplit("::", 1)[-1] for x in walk(ret) if x[0] == "call"]
         bad = [c for c in chain if c in ("skip", "take", "step_by", "filter", "rev", "skip_while", "take_while", "filter_map", "chain")]
-        if ret[0] == "call" and ret[1].endswith("Iterator::collect") and "map" in chain and not bad and show(ret).count("duration_params") == 1:
+        pipeline_ok = ret[0] == "call" and ret[1].endswith("Iterator::collect") and "map" in chain and not bad and show(ret).count("duration_params") == 1
+        if pipeline_ok:
             ctx.ok("C08-R1", "estimate_duration = collect(map(iter(duration_params), f)): one output per state", ed.loc())
-        else:
-            ctx.fail("C08-R1", ed.path, "iterator pipeline", "estimate_duration is not a plain per-state map: %s" % show(ret), ed.loc())
         cb = closure_body(p, ret)
+        loop_ok = False
         if cb is None:
+            # loop form: for MeanVari(mean, vari) in duration_params { out.push(f(mean, vari)) }; out
+            import re as _re
+            pushes = [(bb, t) for bb, t in ed.calls() if t["callee"]["k"] == "fndef" and cm.callee_name(t["callee"]).endswith("Vec::<T, A>::push")]
+            if len(pushes) == 1:
+                pbb, pt = pushes[0]
+                gs = paths.guards(ed, pbb, eb)
+                plain = len(gs) == 1 and gs[0][0] == "some" and _re.match(r"^<std::slice::Iter<'a, T> as std::iter::Iterator>::next\((?:[^()]*::(?:into_iter|iter)\()?duration_params\)?\)$", show(gs[0][1]))
+                # the vector pushed into is the one returned
+                rl = pt["args"][0]["place"]["local"]
+                base = [d[2]["rv"]["place"]["local"] for d in ed.defs().get(rl, []) if d[1] != "term" and d[2]["rv"]["k"] == "ref"]
+                retl = [d[2]["rv"]["op"]["place"]["local"] for d in ed.defs().get(0, []) if d[1] != "term" and d[2]["rv"]["k"] == "use" and d[2]["rv"]["op"].get("k") in ("move", "copy")]
+                if plain and base and retl and base[0] == retl[0]:
+                    loop_ok = floor_form(ctx, p, "C08-R1", ed, value=eb.at(pbb).op(pt["args"][1]), rho_is=lambda a: a == ("arg", "rho"))
+                    if loop_ok:
+                        ctx.ok("C08-R1", "estimate_duration pushes one floored duration per element of duration_params (plain loop), using the rho parameter", ed.loc())
+        if not pipeline_ok and not loop_ok:
+            ctx.fail("C08-R1", ed.path, "iterator pipeline", "estimate_duration is not a plain per-state map: %s" % show(ret), ed.loc())
+        if loop_ok:
+            pass
+        elif cb is None:
             ctx.fail("C08-R1", ed.path, "closure", "per-state closure not found", ed.loc())
         else:
             floor_form(ctx, p, "C08-R1", cb)
